@@ -1,4 +1,5 @@
 """C12 - resolving links and includes only adds copies; cleaning restores the document."""
+import copy
 import os
 import xml.etree.ElementTree as ET
 
@@ -31,7 +32,7 @@ ASSUMPTIONS = ["same-named children of linking Section and target have the same 
 
 
 def small_sec(name, depth):
-    return S.sec_spec(name, depth, max_secs=2, max_props=2, text_classes=["plain", "comma"], pathsafe=True,
+    return S.sec_spec(name, depth, max_secs=2, max_props=2, text_classes=["plain", "comma", "edgeblank"], pathsafe=True,
                       tuples=False)
 
 
@@ -45,7 +46,10 @@ def link_spec(draw, i):
     return {"target": target, "kind": kind, "regime": regime, "own": own,
             "t_at": draw(st.integers(0, 30)), "l_at": draw(st.integers(0, 30)),
             "decoy": draw(st.booleans()),
-            "l_has_defs": draw(st.booleans())}
+            "l_has_defs": draw(st.booleans()),
+            # a float 'nan' (not equal to itself) among the target's values / uncertainties
+            "nan": draw(st.lists(st.tuples(st.integers(0, 9), st.sampled_from(["uncertainty", "value"])).map(list),
+                                 max_size=2))}
 
 
 @st.composite
@@ -128,7 +132,12 @@ def setup(case, tmpdir):
         lpar = base[ls["l_at"] % len(base)]
         own = ls["own"]
         linking = build.build_sec(own)
-        target = build.build_sec(ls["target"])
+        # (a NaN uncertainty only where no XML file is involved: the XML reader re-types every numeric
+        # uncertainty, known finding C01-F1, which is not this property's subject)
+        through_xml = ls["kind"] == "include" or "saveload" in case["seq"]
+        picks = [pk for pk in ls.get("nan", []) if not (through_xml and pk[1] == "uncertainty")]
+        target = build.build_sec(S.inject_nan({"sections": [copy.deepcopy(ls["target"])]},
+                                              picks)["sections"][0])
         if ls["l_has_defs"]:
             linking.definition = linking.definition or "own definition"
             linking.reference = linking.reference or "own reference"
